@@ -428,3 +428,68 @@ func checkUnlockRestoresWipedKeys(c *Ctx, rule string) {
 			fmt.Sprintf("Manager.lock wipes %s in place but Manager.Unlock does not restore it from its stored ciphertext (%s): while unlocked the key is all-zero, so data sealed under this key class is sealed under a publicly known key", w.field, detail))
 	}
 }
+
+// checkAccountWithoutPrivateKey (contradiction rule, Engler et al.): the code tests
+// `len(acctInfo.acctKeyEncrypted) == 0` in the issuers, i.e. it believes an account may have no
+// private key (a watch-only account imported into a regular wallet). Under that belief
+// (mode: account key ciphertext empty, private account key nil), for every function that has such an
+// account in hand: (a) no Decrypt of that ciphertext may be reachable — its failure is treated as
+// fatal and re-locks, so the correct passphrase would no longer unlock the wallet; (b) no address may
+// be queued for derive-on-unlock — there is no private key to derive from at the next Unlock.
+func checkAccountWithoutPrivateKey(c *Ctx, rule string) {
+	p := c.P
+	isAcctCipherLoad := func(v ssa.Value) bool {
+		tn, f, _, ok := fieldOf(stripConv(v))
+		return ok && tn == "accountInfo" && f == "acctKeyEncrypted"
+	}
+	env := modeEnv{"p:IsLocked": bUnknown, "p:WatchOnly": bFalse, "n:acctKeyPriv": bTrue, "e:acctKeyEncrypted": bTrue}
+	nDec, nQueue := 0, 0
+	for _, fn := range p.FuncsIn("waddrmgr") {
+		var decs []ssa.Instruction
+		var queues []ssa.Instruction
+		for _, b := range fn.Blocks {
+			for _, ins := range b.Instrs {
+				switch x := ins.(type) {
+				case *ssa.Call:
+					if calleeShort(&x.Call) == "Decrypt" && len(x.Call.Args) > 0 && isAcctCipherLoad(x.Call.Args[len(x.Call.Args)-1]) {
+						decs = append(decs, x)
+					}
+				case *ssa.Store:
+					if fa, ok := x.Addr.(*ssa.FieldAddr); ok {
+						if tn, f := fieldAddrName(fa); tn == "ScopedKeyManager" && f == "deriveOnUnlock" {
+							// only growth of the queue (append), not the pop in Unlock
+							for _, o := range (&Slicer{P: p}).Origins(x.Val) {
+								if call, ok := o.(*ssa.Call); ok && calleeShort(&call.Call) == "append" {
+									queues = append(queues, x)
+									break
+								}
+							}
+						}
+					}
+				}
+			}
+		}
+		for _, tgt := range decs {
+			tgt := tgt
+			nDec++
+			mi := &modeInterp{p: p, preds: map[string]bool{"IsLocked": true, "WatchOnly": true}, noDescend: true,
+				containsTarget: func(*ssa.Function) bool { return true },
+				target:         func(ins ssa.Instruction, _ modeEnv) bool { return ins == tgt }}
+			hit := mi.reachable(fn, env, 0)
+			c.Check(rule, "no-decrypt-of-absent-account-key:"+fnName(fn), tgt.Pos(), hit == nil,
+				fnName(fn)+" decrypts accountInfo.acctKeyEncrypted on a path where the account has no private key (empty ciphertext: a watch-only account in a regular wallet); the failure is fatal there, so once such an account is loaded the correct passphrase no longer unlocks the manager")
+		}
+		for _, tgt := range queues {
+			tgt := tgt
+			nQueue++
+			mi := &modeInterp{p: p, preds: map[string]bool{"IsLocked": true, "WatchOnly": true}, noDescend: true,
+				containsTarget: func(*ssa.Function) bool { return true },
+				target:         func(ins ssa.Instruction, _ modeEnv) bool { return ins == tgt }}
+			hit := mi.reachable(fn, env, 0)
+			c.Check(rule, "no-derive-on-unlock-without-account-key:"+fnName(fn), tgt.Pos(), hit == nil,
+				fnName(fn)+" queues an address for derive-on-unlock although its account has no private key: the next Unlock derives a public key and dereferences the missing private key")
+		}
+	}
+	c.Floor(rule, "decryptions of the account key ciphertext", nDec, 1)
+	c.Floor(rule, "derive-on-unlock queue insertions", nQueue, 3)
+}
